@@ -53,6 +53,12 @@ func runC10(e *env) {
 		"one evaluation = one module (all its enums); non-trivial = the module declares at least 2 typed constants of a defined type; distinct = distinct source texts"
 	e.m.Extra = map[string]interface{}{"mismatch_means": "model"}
 	specs := append(append(corpusEnums(), sameNamePackages()), repoFixtures("repo-testsource-defs", "repo-subpackage-enums")...)
+	// a module path of one element, and an enum declared in a package reached only through another package of the
+	// module, in another second-level directory
+	specs = append(specs, &modSpec{Name: "enum-one-element-module-transitive-package", ModPath: "shop", Target: "shop.go",
+		Files: []modFile{{"shop.go", "package shop\n\nimport \"shop/api/model\"\n\ntype Order struct {\n\tItem model.Item\n\tN int\n}\n"},
+			{"api/model/model.go", "package model\n\nimport \"shop/core/kinds\"\n\ntype Item struct {\n\tK kinds.Kind\n\tS kinds.Size\n}\n"},
+			{"core/kinds/kinds.go", "package kinds\n\ntype Kind int\n\nconst (\n\tFood Kind = iota // food\n\tTool\n\tToy\n)\n\ntype Size string\n\nconst (\n\tSmall Size = \"s\"\n\tLarge Size = \"l\"\n)\n"}}})
 	n := 24
 	if e.thorough() {
 		n = 400
